@@ -72,7 +72,7 @@ func (n *vhNet) pump() {
 	vrtAssert(false, "net-terminates")
 }
 
-var vhC15Ops = []string{"tell", "kill-immediate", "kill-poison", "watch", "ping", "ask-reply", "pipeto", "unwatch"}
+var vhC15Ops = []string{"tell", "kill-immediate", "kill-poison", "watch", "ping", "ask-reply", "pipeto", "unwatch", "watch-same-path-two-systems"}
 
 // VH_C15_remote_ops: param "op" selects the operation; the same scenario is run
 // with the target in the same system ("local") and in the other system
@@ -152,6 +152,42 @@ func VH_C15_remote_ops() {
 			vrtAssert(notice == 1, "remote-watch-delivers-onkilled-naming-the-target")
 		} else {
 			vrtAssert(notice == 0, "unwatch-stops-the-notice")
+		}
+	case "watch-same-path-two-systems":
+		// a second watcher with the same path as the caller, living in the other system
+		cb := vhLogged("callerB")
+		c2 := n.b.spawn(n.b.root, "caller", cb)
+		vrtAssert(c2.ref.GetPath() == c.ref.GetPath() && c2.ref.GetAddress() != c.ref.GetAddress(), "setup")
+		ref2, _ := ParseRef(t.ref.String())
+		c.Watch(ref)
+		n.pump()
+		c2.Watch(ref2)
+		n.pump()
+		unwatched := vrtBool()
+		if unwatched {
+			// one of them unwatching must not remove the other's registration
+			c2.Unwatch(ref2)
+			n.pump()
+			vrtReach("other-unwatched")
+		} else {
+			vrtReach("both-watching")
+		}
+		t.system.Context.Kill(t.ref, false, "later")
+		n.pump()
+		count := func(a *vhActor) int {
+			k := 0
+			for _, m := range a.seen {
+				if x, ok := m.(*vivid.OnKilled); ok && x.Ref != nil && x.Ref.Equals(t.ref) {
+					k++
+				}
+			}
+			return k
+		}
+		vrtAssert(count(ca) == 1, "each-watcher-notified-once-regardless-of-location")
+		if unwatched {
+			vrtAssert(count(cb) == 0, "unwatch-stops-the-notice")
+		} else {
+			vrtAssert(count(cb) == 1, "each-watcher-notified-once-regardless-of-location")
 		}
 	case "ping":
 		ns := vrtInt64()
